@@ -1174,8 +1174,28 @@ def prove_under_pc(it, term):
     return s.check() == z3.unsat
 
 
+_DUNDER = {ast.Add: "add", ast.Sub: "sub", ast.Mult: "mul", ast.Div: "truediv", ast.MatMult: "matmul", ast.Pow: "pow", ast.FloorDiv: "floordiv", ast.Mod: "mod"}
+
+
 def binop(it, op, a, b):
-    from .interp import I as toI, R, simp
+    from .interp import I as toI, R, simp, FuncVal
+
+    # operator overloading on objects of interpreted classes (python protocol: __op__, then reflected __rop__)
+    if op in _DUNDER and (isinstance(a, SymObj) and a.cls is not None or isinstance(b, SymObj) and b.cls is not None):
+        nm = _DUNDER[op]
+        if isinstance(a, SymObj) and a.cls is not None:
+            m, _ = a.cls.lookup(f"__{nm}__")
+            if isinstance(m, FuncVal):
+                r = it.call(m, [a, b])
+                if r != "<NotImplemented>":
+                    return r
+        if isinstance(b, SymObj) and b.cls is not None:
+            m, _ = b.cls.lookup(f"__r{nm}__")
+            if isinstance(m, FuncVal):
+                r = it.call(m, [b, a])
+                if r != "<NotImplemented>":
+                    return r
+        raise PyRaise("TypeError", f"unsupported operand types for {nm}")
 
     # sequences
     if op is ast.Add and isinstance(a, (tuple, list, SymSeq, SymList)) and isinstance(b, (tuple, list, SymSeq, SymList)):
